@@ -157,7 +157,57 @@ sys.exit(1 if bad else 0)
 '''
 
 
+CHECKS_SEARCH = '''
+# bounded search replay on the REAL rewriter: a rule Abs(Relu(x)) -> Identity(x) whose node-level check, value-level check and condition
+# function answer in each documented way; the rule may fire only if all of them accept
+import itertools, sys
+import onnx_ir as ir
+from onnxscript.rewriter import pattern as orp, _basics
+def answers():
+    def raising(*a, **k): raise _basics.MatchFailureError("no")
+    def failed(*a, **k):
+        r = _basics.MatchResult(); r.fail("no"); return r
+    return {"True": lambda *a, **k: True, "False": lambda *a, **k: False, "None": lambda *a, **k: None, "failed MatchResult": failed, "raises": raising, "absent": None}
+bad = 0
+A = answers()
+for (nn, nf), (vn, vf), (cn, cf) in itertools.product(A.items(), A.items(), [(k, v) for k, v in A.items() if v is not None]):
+    seen = []
+    def cond(context, x, extra=None, **_):
+        seen.append(extra)
+        return cf(context)
+    def pat(op, x, extra):
+        kw = {"_check": nf} if nf is not None else {}
+        r = op.Relu(x, **kw)
+        return op.Abs(r)
+    def pat_opt(op, x):
+        kw = {"_check": nf} if nf is not None else {}
+        r = op.Relu(x, **kw)
+        return op.Abs(r)
+    def repl(op, x, **_): return op.Identity(x)
+    xv = orp.Var("x", check=vf) if vf is not None else orp.Var("x")
+    gp = orp._to_graph_pattern(pat_opt) if False else None
+    x = ir.Value(name="x", type=ir.TensorType(ir.DataType.FLOAT), shape=ir.Shape([2]))
+    r = ir.node("Relu", [x]); a = ir.node("Abs", [r.outputs[0]]); a.outputs[0].name = "y"
+    g = ir.Graph([x], [a.outputs[0]], nodes=[r, a], opset_imports={"": 18}, name="g")
+    m = ir.Model(g, ir_version=9)
+    def pat2(op, x):
+        kw = {"_check": nf} if nf is not None else {}
+        return op.Abs(op.Relu(x, **kw))
+    rule = orp.RewriteRule(pat2, repl, lambda context, x, **_: cf(context))
+    try:
+        n = rule.apply_to_model(m)
+    except Exception as e:
+        print(f"node check {nn}, condition {cn}: apply_to_model raises {type(e).__name__}: {e}"); bad += 1; continue
+    want = 1 if (nf is None or nn == "True") and cn == "True" else 0
+    if n != want:
+        print(f"node-level check answers {nn}, condition function answers {cn}: rule applied {n} time(s), expected {want}"); bad += 1
+sys.exit(1 if bad else 0)
+'''
+
+
 def replay(ob):
+    if ob["name"].startswith("C06.pattern.match.") or ob["name"].startswith("Pattern.match.loop"):
+        return CHECKS_SEARCH
     if ".any_depth." in ob["name"] or (".loop" in ob["name"] and ob["name"].startswith("MatchResult.")):
         return STATE_SEARCH
     if "valid_to_replace" in ob["name"]:
